@@ -16,6 +16,7 @@ import (
 	"github.com/cloudwego/hertz/pkg/app/middlewares/server/recovery"
 	"github.com/cloudwego/hertz/pkg/network"
 	"github.com/cloudwego/hertz/pkg/protocol"
+	"github.com/cloudwego/hertz/pkg/protocol/http1/resp"
 
 	"verifsim/core"
 	"verifsim/wire"
@@ -24,15 +25,15 @@ import (
 func init() {
 	Registry["C09"] = RunC09
 	Metas["C09"] = Meta{
-		Rule: "episode = (dirtying history, probe): 1..3 requests with generated wire shapes (query, form, multipart, cookies, chunked+trailers, streamed body) whose handler runs a program of 1..12 exported mutators of RequestContext/Request/Response/RequestHeader/ResponseHeader/URI/Args/Trailer enumerated by reflection (plus Abort*, Error, Set, panic under the recovery middleware), ending normally / in a recovered panic / 400 / 413 / peer RST mid-body / peer FIN mid-header / write fault / Connection: close; then a fixed probe request on the same keep-alive connection or on a new connection that gets the recycled context (reuse verified by pointer identity), whose handler dumps every exported getter (enumerated by reflection) and whose raw response bytes are captured; compared with the same probe on a brand-new engine. Sub-check: Acquire/Release round trips of Request/Response/URI/Cookie/Args. Non-trivial: the probe ran on a recycled object (identity verified) after >= 1 mutator; distinct = abstract signature (mutator names, outcome, probe placement).",
+		Rule: "episode = (dirtying history, probe): 1..3 requests with generated wire shapes (query, form, multipart, cookies, chunked+trailers, streamed body) whose handler runs a program of 1..12 exported mutators of RequestContext/Request/Response/RequestHeader/ResponseHeader/URI/Args/Trailer enumerated by reflection (plus Abort*, Error, Set, panic under the recovery middleware), ending normally / in a recovered panic / 400 / 413 / peer RST mid-body / peer FIN mid-header / write fault / Connection: close / through the pooled chunked body writer / with body streams whose Close fails; optionally a forced garbage collection with its finalizers (fault gc) before the probe; then a fixed probe request on the same keep-alive connection or on a new connection that gets the recycled context (reuse verified by pointer identity), whose handler dumps every exported getter (enumerated by reflection) and whose raw response bytes are captured; compared with the same probe on a brand-new engine. Sub-check: Acquire/Release round trips of Request/Response/URI/Cookie/Args. Non-trivial: the probe ran on a recycled object (identity verified) after >= 1 mutator; distinct = abstract signature (mutator names, outcome, probe placement).",
 		Real: []string{"RequestContext.ResetWithoutConn/Reset", "Request/Response/RequestHeader/ResponseHeader/URI/Args/Cookie/Trailer Reset paths", "http1.Server.Serve keep-alive loop + getRequestContext/putRequestContext", "route.Engine ctx pool", "protocol.Acquire*/Release* pools", "recovery middleware"},
 		Stub: []string{"TCP (SimConn)", "peer (scripted actor)", "transporter accept loop (stub)", "clock (synctest)"},
 		Assumptions: []string{
 			"connection-scoped state the property lists as deliberately kept (conn, TLS flag, trace info object, binder/validator, client-IP and form-value functions) and handles to pooled internals are excluded from the dump by name",
-			"one P and no GC inside an episode make sync.Pool hand the same object back; episodes where reuse could not be verified count as trivial",
+			"one P makes sync.Pool hand the same object back unless the gc fault fired; episodes where reuse could not be verified count as trivial",
 			"data races between a handler that kept a context and its next user are not covered (serialised execution)",
 		},
-		RequiredProbes: []string{"probe-same-conn", "probe-new-conn", "reuse-verified", "outcome-ok", "outcome-panic", "outcome-malformed", "outcome-toolarge", "outcome-rst-body", "outcome-close", "outcome-hijack-write-error", "outcome-write-error", "acquire-roundtrip", "mutators-run", "probe-unmatched"},
+		RequiredProbes: []string{"probe-same-conn", "probe-new-conn", "reuse-verified", "outcome-ok", "outcome-panic", "outcome-malformed", "outcome-toolarge", "outcome-rst-body", "outcome-close", "outcome-hijack-write-error", "outcome-write-error", "acquire-roundtrip", "mutators-run", "probe-unmatched", "outcome-chunked-writer", "outcome-stream-close-error", "probe-chunked-writer", "gc"},
 	}
 }
 
@@ -305,6 +306,10 @@ func RunC09(ep *core.Episode) {
 	}
 	ep.ProbeN("alphabet-mutators", 0)
 	stream := tp.Chance("stream", 1, 4)
+	probeStyle := tp.Weighted("probestyle", []int{3, 1, 1})
+	if probeStyle == 1 {
+		ep.Probe("probe-chunked-writer")
+	}
 	mkEngine := func(name string, prog func(ctx *app.RequestContext), dump *[]string, ctxPtr **app.RequestContext) (*Srv, *core.Net) {
 		nw := core.NewNet(ep)
 		srv := NewSrv(ep, nw, SrvOpts{BufSize: 4096, MaxBody: 3000, Stream: stream})
@@ -320,7 +325,17 @@ func RunC09(ep *core.Episode) {
 			*ctxPtr = ctx
 			*dump = dumpCtx(ctx)
 			ctx.SetStatusCode(200)
-			ctx.Response.SetBodyString("probe-ok")
+			switch probeStyle {
+			case 1: // the pooled chunked body writer
+				ctx.Response.HijackWriter(resp.NewChunkedBodyWriter(&ctx.Response, ctx.GetWriter()))
+				ctx.Write([]byte("probe-"))
+				ctx.Flush()
+				ctx.Write([]byte("ok"))
+			case 2: // a body stream of unknown length
+				ctx.Response.SetBodyStream(strings.NewReader("probe-ok"), -1)
+			default:
+				ctx.Response.SetBodyString("probe-ok")
+			}
 		}
 		srv.Eng.GET("/probe/:pp", probeH)
 		srv.Eng.NoRoute(probeH)
@@ -337,19 +352,23 @@ func RunC09(ep *core.Episode) {
 	rcl.Methods = []string{"GET"}
 	rcl.Sends = []Send{{Data: []byte(c09Probe), Label: "probe"}}
 	if res := ep.S.Run(func() bool { return rc.Task.Done }); res != core.RunDone {
-		ep.Infra = "reference probe did not complete: " + res.String()
+		// a brand-new engine still draws from the process-wide pools: what an earlier episode left there is part of the property
+		if !CheckPanic(ep, "C09", rc) {
+			rcl.Parse()
+			ep.Fail("C09.wire", "the probe on a brand-new engine did not complete (%s): received %q, parse error %v", res, wire.Trunc(string(rc.Rx), 200), rcl.ParseErr)
+		}
 		return
 	}
 	rcl.Parse()
 	refRaw := append([]byte(nil), rc.Rx...)
 	if refDump == nil || len(rcl.Resps) != 1 {
-		ep.Infra = "reference probe produced no dump"
+		ep.Fail("C09.wire", "the probe on a brand-new engine was not answered with one response: received %q, parse error %v", wire.Trunc(string(rc.Rx), 200), rcl.ParseErr)
 		return
 	}
 
 	// ---- dirtying history ----
 	nd := 1 + tp.Choose("ndirty", 3)
-	outcomes := []string{"ok", "ok", "ok", "panic", "malformed", "toolarge", "rst-body", "fin-header", "close", "abort", "write-error", "hijack", "hijack-write-error"}
+	outcomes := []string{"ok", "ok", "ok", "panic", "malformed", "toolarge", "rst-body", "fin-header", "close", "abort", "write-error", "hijack", "hijack-write-error", "chunked-writer", "stream-close-error"}
 	var dirtyCtx *app.RequestContext
 	var ranMutators []string
 	progs := make([][]func(ctx *app.RequestContext), nd)
@@ -397,7 +416,7 @@ func RunC09(ep *core.Episode) {
 				ranMutators = append(ranMutators, mu2.target+"."+mu2.name)
 			})
 		}
-		if ocs[d] != "ok" && ocs[d] != "panic" && ocs[d] != "abort" && ender < 0 {
+		if ocs[d] != "ok" && ocs[d] != "panic" && ocs[d] != "abort" && ocs[d] != "chunked-writer" && ocs[d] != "stream-close-error" && ender < 0 {
 			ender = d
 		}
 		ep.Probe("outcome-" + ocs[d])
@@ -433,6 +452,19 @@ func RunC09(ep *core.Episode) {
 			ctx.SetConnectionClose()
 		case "abort":
 			ctx.AbortWithStatus(418)
+		case "chunked-writer":
+			// the response goes out through the pooled chunked body writer (which only a finalizer returns to its pool)
+			ctx.Response.ResetBody()
+			ctx.SetStatusCode(200)
+			ctx.Response.HijackWriter(resp.NewChunkedBodyWriter(&ctx.Response, ctx.GetWriter()))
+			ctx.Write([]byte("dirty-chunk"))
+			ctx.Flush()
+		case "stream-close-error":
+			// body streams whose Close fails, on both objects
+			ctx.Request.SetBodyStream(&failCloser{Reader: strings.NewReader("dirty-request-stream")}, 20)
+			ctx.Response.ResetBody()
+			ctx.SetStatusCode(200)
+			ctx.Response.SetBodyStream(&failCloser{Reader: strings.NewReader("dirty-stream")}, 12)
 		case "write-error", "hijack-write-error", "hijack":
 			if ocs[d] != "write-error" {
 				ctx.Hijack(func(c network.Conn) {})
@@ -469,6 +501,9 @@ func RunC09(ep *core.Episode) {
 		case 3:
 			m.Body = core.PatternBytes(byte(d), 1+tp.Choose("dblen", 2000))
 		}
+		if ocs[d] == "chunked-writer" || ocs[d] == "stream-close-error" {
+			m.Method = "POST"
+		}
 		if ocs[d] == "toolarge" {
 			m.Chunked = false
 			m.Trailers = nil
@@ -500,7 +535,23 @@ func RunC09(ep *core.Episode) {
 		cl.Sends = append(cl.Sends, Send{Data: []byte(c09Probe), WhenQuiet: true, Mark: &probeMark, Label: "probe"})
 	}
 	cl.FinWhenQuiet = true
-	ep.Logf("dirty outcomes=%v sameConn=%v stream=%v", ocs, sameConn, stream)
+	// fault: a garbage collection (with its finalizers) between the dirtying history and the probe
+	wantGC := tp.Chance("gc", 1, 3)
+	gcDone := false
+	if wantGC && sameConn {
+		src := &core.FuncSource{F: func(add func(core.Event)) {
+			if !gcDone && cur >= nd && conn.A.ReaderParked() {
+				add(core.Event{Key: "gc", Weight: 20, Apply: func() {
+					gcDone = true
+					core.ForceGC()
+					ep.Fault("gc")
+				}})
+			}
+		}}
+		ep.S.AddSource(src)
+		defer ep.S.RemoveSource(src)
+	}
+	ep.Logf("dirty outcomes=%v sameConn=%v stream=%v probeStyle=%d", ocs, sameConn, stream, probeStyle)
 	if res := ep.S.Run(func() bool { return conn.Task.Done }); res != core.RunDone {
 		if res == core.RunViolation {
 			return
@@ -521,6 +572,11 @@ func RunC09(ep *core.Episode) {
 		probeRaw = conn.Rx[probeMark:]
 	} else {
 		ep.Probe("probe-new-conn")
+		if wantGC && !gcDone {
+			gcDone = true
+			core.ForceGC()
+			ep.Fault("gc")
+		}
 		c2 := srv.Connect("d2")
 		cl2 := NewClient(ep, c2)
 		cl2.Methods = []string{"GET"}
@@ -565,6 +621,11 @@ func RunC09(ep *core.Episode) {
 	ep.Nontrivial = reused && len(ranMutators) > 0
 	ep.Sample = map[string]interface{}{"outcomes": ocs, "mutators": tailStr(ranMutators, 12), "probe_on_same_connection": sameConn, "context_reuse_verified": reused, "getters_compared": len(refDump)}
 }
+
+// failCloser is a body stream whose Close reports an error.
+type failCloser struct{ io.Reader }
+
+func (f *failCloser) Close() error { return fmt.Errorf("scripted close error") }
 
 func tailStr(s []string, n int) []string {
 	if len(s) > n {
